@@ -123,6 +123,8 @@ func init() {
 		"internal/bytealg.Index":           ext۰bytealg۰IndexString,
 		"internal/stringslite.Index":       ext۰bytealg۰IndexString,
 		"strings.Index":                    ext۰bytealg۰IndexString,
+		"internal/stringslite.Clone":      func(fr *frame, args []value) value { return args[0] },
+		"strings.Clone":                    func(fr *frame, args []value) value { return args[0] },
 		"internal/abi.NoEscape":            func(fr *frame, args []value) value { return args[0] },
 		"(*strings.Builder).copyCheck":     func(fr *frame, args []value) value { return nil },
 		"(*strings.Builder).String":        ext۰strings۰Builder۰String,
@@ -221,6 +223,7 @@ func init() {
 		"fmt.Fprintln": ext۰fmt۰Fprintln,
 		"fmt.Sscan":    func(fr *frame, a []value) value { panic(unsupported("fmt.Sscan")) },
 
+		"strconv.ParseFloat": ext۰strconv۰ParseFloat,
 		"encoding/json.Marshal": func(fr *frame, a []value) value { panic(unsupported("encoding/json.Marshal")) },
 		"(*encoding/json.Encoder).Encode": func(fr *frame, a []value) value {
 			panic(unsupported("encoding/json.Encoder.Encode"))
@@ -280,7 +283,27 @@ func ext۰math۰IsInf(fr *frame, a []value) value {
 func runePred(name string, f func(rune) bool) externalFn {
 	return func(fr *frame, a []value) value {
 		if sv, ok := a[0].(symV); ok {
-			t := fr.i.tt.intern("call", boolSort, 0, name, sv.t)
+			i := fr.i
+			tt := i.tt
+			// ASCII runes: a small range disjunction; others: the generated SMT predicate
+			// (a large definition that is only sent to the solver on paths that need it).
+			if i.branch(tt.bvCmp("bvult", sv.t, tt.bvConst(0x80, 32))) {
+				r := tt.boolConst(false)
+				start := -1
+				for c := 0; c <= 0x80; c++ {
+					in := c < 0x80 && f(rune(c))
+					if in && start < 0 {
+						start = c
+					}
+					if !in && start >= 0 {
+						rng := tt.and(tt.bvCmp("bvule", tt.bvConst(uint64(start), 32), sv.t), tt.bvCmp("bvule", sv.t, tt.bvConst(uint64(c-1), 32)))
+						r = tt.or(r, rng)
+						start = -1
+					}
+				}
+				return fromTerm(r, types.Bool)
+			}
+			t := tt.intern("call", boolSort, 0, name, sv.t)
 			return symV{t, types.Bool}
 		}
 		return f(a[0].(int32))
@@ -587,6 +610,17 @@ func atomicCAS(fr *frame, a []value) value {
 		return true
 	}
 	return false
+}
+
+// strconv.ParseFloat: the real algorithm (Eisel-Lemire, multi-precision fallback) is far
+// outside what a solver can decide symbolically; a symbolic argument is concretised by
+// forking over its feasible byte values (the caller has normally already constrained
+// them to number syntax), then the real code runs on the concrete string.
+func ext۰strconv۰ParseFloat(fr *frame, a []value) value {
+	if _, ok := a[0].(symStr); ok {
+		a[0] = fr.i.concValue(a[0])
+	}
+	return fallThrough{}
 }
 
 func ext۰errors۰Is(fr *frame, a []value) value {
